@@ -198,6 +198,29 @@ func (j *rootJudge) judge(x ref.Bits, cube bool, wantExact *big.Int, wantExactEx
 	}
 }
 
+// nearMidpointRoot solves m = t (mod 2^K), m = -t-1 (mod 5^K), 0 <= m < 10^K,
+// so that (m-t)(m+t+1) is divisible by 10^K.
+func nearMidpointRoot(t *big.Int, K int) (*big.Int, bool) {
+	p2 := new(big.Int).Lsh(ref.One, uint(K))
+	p5 := new(big.Int).Exp(big.NewInt(5), big.NewInt(int64(K)), nil)
+	inv := new(big.Int).ModInverse(new(big.Int).Mod(p2, p5), p5)
+	if inv == nil {
+		return nil, false
+	}
+	// m = t + 2^K * k with t + 2^K k = -t-1 (mod 5^K)  =>  k = (-2t-1) * inv(2^K) (mod 5^K)
+	k := new(big.Int).Mul(t, big.NewInt(-2))
+	k.Sub(k, ref.One)
+	k.Mul(k, inv)
+	k.Mod(k, p5)
+	m := new(big.Int).Mul(p2, k)
+	m.Add(m, new(big.Int).Mod(t, p2))
+	m.Mod(m, new(big.Int).Mul(p2, p5))
+	if m.Cmp(t) <= 0 {
+		return nil, false
+	}
+	return m, true
+}
+
 func (j *rootJudge) genAndJudge(r *gen.RNG, i int) {
 	neg := r.Bool()
 	switch i % 10 {
@@ -265,6 +288,27 @@ func (j *rootJudge) genAndJudge(r *gen.RNG, i int) {
 		j.judge(ref.Encode(neg && cube, c, e), cube, nil, 0)
 	case 5: // specials and zeros
 		j.judge(r.AnyBits(), r.Bool(), nil, 0)
+	case 6: // Sqrt arguments whose exact root lies just below a rounding midpoint (by about t^2/(2m) ulp)
+		K := r.Pick(33, 34)
+		tl := r.Range(0, 13)
+		t := r.BigBelow(ref.Pow10(tl + 1))
+		m, ok := nearMidpointRoot(t, K)
+		if ok {
+			// N * 10^K = (m + 1/2)^2 - (t + 1/2)^2 = (m - t)(m + t + 1)
+			N := new(big.Int).Mul(new(big.Int).Sub(m, t), new(big.Int).Add(new(big.Int).Add(m, t), ref.One))
+			N.Quo(N, ref.Pow10(K))
+			if N.Sign() > 0 && N.Cmp(ref.Cmax) <= 0 {
+				e := 2 * r.Range(-1500, 1500)
+				if K == 33 {
+					e++
+				}
+				j.sh.Cell("Sqrt/constructed-near-midpoint")
+				j.judge(ref.Encode(false, N, e), false, nil, 0)
+				return
+			}
+		}
+		c, _ := r.Coef()
+		j.judge(ref.Encode(false, c, r.Range(ref.MinExp, ref.MaxExp)), false, nil, 0)
 	default: // every exponent class x coefficient shapes
 		c, _ := r.Coef()
 		if c.Sign() == 0 {
